@@ -151,6 +151,8 @@ class _Expand(ast.NodeTransformer):
     visit_ListComp = visit_SetComp = visit_DictComp = visit_GeneratorExp = _comp
 
 
+# classes of the repository whose instances are mutable objects with identity (never substituted for their name)
+IDENTITY_CLASSES = ("SizeConstraint", "SizeConstraintList")
 CONSTRUCTORS = {"bytes", "int", "str", "list", "tuple", "dict", "set", "bytearray", "bool", "float", "iter", "len", "repr"}
 IMPURE_CALLS = {"next", "print", "input", "open", "iter", "exit", "sys.exit"}
 IMPURE_METHODS = {"append", "extend", "insert", "pop", "remove", "clear", "update", "setdefault", "add", "discard", "sort", "reverse",
@@ -709,7 +711,7 @@ def _is_literal(t):
 def _mutable_display(e):
     if isinstance(e, (ast.List, ast.Dict, ast.Set, ast.ListComp, ast.DictComp, ast.SetComp)):
         return True
-    return isinstance(e, ast.Call) and norm(e.func) in ("list", "dict", "set", "bytearray", "defaultdict", "deque")
+    return isinstance(e, ast.Call) and norm(e.func) in ("list", "dict", "set", "bytearray", "defaultdict", "deque") + IDENTITY_CLASSES
 
 
 def _mentions(e, name):
